@@ -1,6 +1,9 @@
 package c18
 
 import (
+	"fmt"
+	"sort"
+	"strings"
 	"testing"
 
 	"verif/hs"
@@ -82,4 +85,50 @@ func TestTableReceiverMutation(t *testing.T) {
 	}
 	pk.Exhaustive("table-receiver-mutation")
 	col.Done(t)
+}
+
+// An any-object is a string-keyed map of data PLUS the builtin members the analyzer offers for `{ ? }`; a data
+// key that is spelt like a member (`keys`, `get`, `set` ...) must not replace that member.
+var anyObjMembers = []string{"get", "set", "keys", "get_type", "to_string", "to_json", "to_json_indent", "a", "zz"}
+
+func TestTableAnyObjectKeyNames(t *testing.T) {
+	pk.SkipIfReplay(t)
+	col := pk.NewCollector()
+	for k, m := range anyObjMembers {
+		if !pk.Mine(k) {
+			continue
+		}
+		keys := []string{m, "b"}
+		sort.Strings(keys)
+		body := fmt.Sprintf(`let o = new { ? };
+    o.set(%q, 1);
+    o.set("b", 2);
+    println(o.keys());
+    println(o.get(%q).is_some(), o.get("nope").is_some());
+    println(o.to_json());
+    o.set(%q, 5);
+    println(o.keys().len(), o.to_json());
+    let p = "{\"%s\": 7, \"b\": 8}".parse_json() as { ? };
+    println(p.keys(), p.get(%q).is_some());
+    p.set("c", 9);
+    println(p.keys().len());`, m, m, m, m, m)
+		want := fmt.Sprintf("[%s, %s]\ntrue false\n{\"%s\":%d,\"%s\":%d}\n2 {\"%s\":%d,\"%s\":%d}\n[%s, %s] true\n3\n",
+			keys[0], keys[1], keys[0], val(keys[0], m, 1), keys[1], val(keys[1], m, 1), keys[0], val(keys[0], m, 5), keys[1], val(keys[1], m, 5), keys[0], keys[1])
+		exp := &px.Exp{Outcome: hs.Outcome{Class: "ok"}, Writes: strings.SplitAfter(strings.TrimSuffix(want, "\n"), "\n")}
+		exp.Writes[len(exp.Writes)-1] += "\n"
+		c := px.ProgCase{Modules: map[string]string{"main": "fn main() {\n    " + body + "\n}\n"}, Entry: "main", Limits: sb.DefaultLimits(),
+			Note: "any-object with a data key named " + m, Expect: exp}
+		pk.Eval()
+		pk.NonTrivial(c.Note, map[string]any{"key": m})
+		col.Report(c, checkMutation(c))
+	}
+	pk.Exhaustive("table-anyobject-key-names")
+	col.Done(t)
+}
+
+func val(key, m string, v int) int {
+	if key == m {
+		return v
+	}
+	return 2
 }
